@@ -187,8 +187,11 @@ fn tokens(src: &str) -> Vec<String> {
     out
 }
 
+/// Shrinking predicate: the candidate still disagrees in the same way *and* still is not
+/// attributable to a known-defect construct class — a shrinker that only preserves "some
+/// disagreement" drifts from a new defect into the nearest known one.
 fn disagrees(src: &str, kind: &str) -> bool {
-    matches!(judge(src), Verdict::Disagree { kind: k, .. } if k == kind)
+    matches!(judge(src), Verdict::Disagree { kind: k, .. } if k == kind) && crate::c01::construct_class(src).is_none()
 }
 
 /// Token-level shrinker (windows of 1..=3 tokens, then bracket pairs) to a fixpoint.
@@ -323,7 +326,13 @@ pub fn run(tier: Tier) -> Result<Report, String> {
         .map(|(kind, src, exp, obs)| {
             crate::sim::system::install_panic_recorder();
             let k: &str = kind;
-            let core = shrink(src, match k { "value" => "value", "stuck" => "stuck", "error" => "error", "panic" => "panic", _ => "value-vs-error" });
+            // a violation attributable to a known-defect class keeps its source (the class is
+            // the signature); everything else is shrunk, class-preservingly, to a minimal core
+            let core = if crate::c01::construct_class(src).is_some() {
+                src.replace('\n', " ⏎ ")
+            } else {
+                shrink(src, match k { "value" => "value", "stuck" => "stuck", "error" => "error", "panic" => "panic", _ => "value-vs-error" })
+            };
             (kind.clone(), core, src.clone(), exp.clone(), obs.clone())
         })
         .collect();
